@@ -34,9 +34,11 @@ Definition le64 (n : N) : bytes := le_bytes 8 n.
 (** [binary.LittleEndian.Uint64] *)
 Fixpoint le_decode (l : bytes) : N :=
   match l with [] => 0%N | x :: t => (x + 256 * le_decode t)%N end.
-Definition u64 (n : N) : N := (n mod 2 ^ 64)%N.
+Definition u64 (n : N) : N := (n mod 18446744073709551616)%N.       (* 2^64 *)
 (** int64 wrap-around *)
-Definition i64 (z : Z) : Z := ((z + 2 ^ 63) mod 2 ^ 64 - 2 ^ 63)%Z.
+Definition i64 (z : Z) : Z :=                                   (* 2^63, 2^64 *)
+  if ((-9223372036854775808 <=? z) && (z <? 9223372036854775808))%Z then z
+  else ((z + 9223372036854775808) mod 18446744073709551616 - 9223372036854775808)%Z.
 
 Inductive err :=
 | EInconsistentRefs   (* hashtrie.errInconsistentRefs *)
